@@ -260,9 +260,6 @@ func Realise(v V, r *core.Rand, rep Rep, byLookup bool) any {
 		} else {
 			x = &DropP{x}
 		}
-		if r.P(1, 6) {
-			x = DropV{x} // nested Drop
-		}
 	}
 	return x
 }
